@@ -67,6 +67,7 @@ type Contract struct {
 	ErrorsFrom []string    // errorsfrom A, B: every returned error originates in a call of one of these
 	ReleasesLock bool      // releaseslock: no return with a sync mutex taken in the function still held
 	Forbids    []string    // forbids A, B: the function calls none of these (it runs with a lock they take)
+	NoReentrantLock bool   // noreentrantlock: no call of a locking method of the same receiver while the mutex may be held
 	HasErrorsFrom bool
 	RecvNonNil bool
 	Params     []string // optional explicit parameter names (for externals)
@@ -313,6 +314,10 @@ func ParseSpecFile(path string, pkgName string) (*SpecFile, error) {
 					cur.ErrorsFrom = append(cur.ErrorsFrom, n)
 				}
 			}
+		case "noreentrantlock":
+			// while the function may hold the mutex of its receiver (taken with Lock), it
+			// calls no method of the same receiver that takes that mutex again
+			cur.NoReentrantLock = true
 		case "forbids":
 			// forbids A, B: the function does not call A or B (typically: it runs with
 			// a mutex held that they would take again)
